@@ -67,6 +67,13 @@ func runMassiveVerdict(c Case) []Diff {
 				noteKnown("c02.massive-indent-char-switch-between-roots")
 				break
 			}
+			if err == nil && wrongCharRow(doc, simple) {
+				// known finding: a row indented with the other blank than the document's is rejected by the
+				// simple mode; in the massive mode another worker's root row may have reset the shared parser's
+				// indent character in between, and the row is accepted
+				noteKnown("c02.massive-accepts-wrong-indent-char")
+				break
+			}
 			d = append(d, Diff{What: "massive mode rejects iff simple mode rejects (" + c.Mode + ")", Real: "massive: " + classify(err), Model: "simple: " + classify(simple)})
 			break
 		}
@@ -85,6 +92,25 @@ func runMassiveVerdict(c Case) []Diff {
 		}
 	}
 	return d
+}
+
+// wrongCharRow: the simple mode's error names a row that is indented with the other blank than the first
+// indented row of the document
+func wrongCharRow(doc []byte, simpleErr error) bool {
+	cls := classify(simpleErr)
+	if !strings.HasPrefix(cls, "format:") {
+		return false
+	}
+	row := unhx(strings.TrimPrefix(cls, "format:"))
+	if len(row) == 0 || (row[0] != ' ' && row[0] != '\t') {
+		return false
+	}
+	for _, l := range strings.Split(string(doc), "\n") {
+		if len(l) > 0 && (l[0] == ' ' || l[0] == '\t') && strings.TrimSpace(l) != "" {
+			return l[0] != row[0]
+		}
+	}
+	return false
 }
 
 // mixesIndentChars: some row is indented with a tab and some other row with a space
